@@ -6,7 +6,7 @@ import (
 	"pgregory.net/rapid"
 )
 
-var c17ErrKinds = []string{"err", "perr", "stderr", "serr", "ierr", "errwrap", "nilerr", "errstringer", "errfmter", "errsafefmt", "errsafemsg"}
+var c17ErrKinds = []string{"err", "perr", "stderr", "serr", "ierr", "errwrap", "errwrapv", "errwrapv", "nilerr", "errstringer", "errfmter", "errsafefmt", "errsafemsg"}
 
 func genC17Err(rt *rapid.T, vc *valConfig) *Val {
 	k := c17ErrKinds[rapid.IntRange(0, len(c17ErrKinds)-1).Draw(rt, "ek")]
@@ -18,6 +18,16 @@ func genC17Err(rt *rapid.T, vc *valConfig) *Val {
 	case "errwrap":
 		v := vc.leafS(rt, k, false, false)
 		v.Sub = []*Val{vc.leafS(rt, "stderr", false, false)}
+		return v
+	case "errwrapv":
+		// a chain of value-type wrapping errors (the cause has the same
+		// dynamic type half of the time)
+		v := vc.leafS(rt, k, false, false)
+		cause := vc.leafS(rt, pick(rt, "cause", []string{"serr", "err", "errwrapv"}), false, false)
+		if cause.K == "errwrapv" {
+			cause.Sub = []*Val{vc.leafS(rt, "serr", false, false)}
+		}
+		v.Sub = []*Val{cause}
 		return v
 	case "errfmter":
 		v := vc.leafS(rt, k, false, false)
